@@ -361,6 +361,28 @@ func init() {
 			configs++
 			mu.Unlock()
 		})
+		// corpus layer: the bundled real-world lists, whole, in both backings
+		files := []string{"testdata/easylist.txt", "testdata/hosts"}
+		if c.Thorough() {
+			files = corpusFiles
+		}
+		var corpusRules int64
+		for fi, rel := range files {
+			content := corpusContent(rel)
+			if content == "" {
+				continue
+			}
+			for _, ic := range []bool{false, true} {
+				if !c.Thorough() && ic {
+					continue
+				}
+				desc := map[string]any{"file": rel, "ignore_cosmetic": ic}
+				evals += c11Check(c, []c11List{{fi + 1, content, ic}}, desc, map[string]any{"lists": []any{}})
+				configs++
+			}
+			corpusRules += int64(len(c11Reference(content, fi+1, false)))
+		}
+		c.Run.Set("corpus_rules_scanned_and_retrieved", corpusRules)
 		c.Run.Set("list_shape_assignments", int64(len(shapes)))
 		c.Run.Set("line_symbols", int64(len(syms)))
 		c.Run.Set("contents", int64(len(seqs)*4))
